@@ -172,7 +172,7 @@ class C14(Prop):
         g = Gen(rnd)
         cases = []
         big = tier != 'quick' or scale > 1
-        mult = scale if scale > 1 else (12 if tier != 'quick' else 1)     # widened search (DESIGN section 4): 20x the quick volume
+        mult = scale if scale > 1 else (40 if tier != 'quick' else 1)     # widened search (DESIGN section 4): 20x the quick volume
         # 1. boundary lengths x every type: assign, replace shorter / longer / equal, clear, across reopen
         for t in TYPES:
             for (a, b) in [(0, 1), (1, 0), (1, 2), (8, 7), (7, 8), (8, 9), (9, 8), (64, 63), (63, 64), (64, 64), (3, 40), (40, 3), (8, 8)]:
